@@ -21,7 +21,7 @@ def Core.rootFree : Core → Bool
   | .method c _ _ _ => c.rootFree
   | .await c _ => c.rootFree
   | .named c _ _ => c.rootFree
-  | .unnamed c _ _ => c.rootFree
+  | .unnamed c _ _ _ => c.rootFree
   | .index c _ _ => c.rootFree
 
 def VExpr.rootFree (v : VExpr) : Bool := v.core.rootFree
@@ -59,7 +59,7 @@ theorem Core.toks_rootFree (value : Toks) : ∀ c : Core, c.rootFree = true → 
   | .method c _ _ _, h => by simp only [Core.toks]; rw [Core.toks_rootFree value c h]
   | .await c _, h => by simp only [Core.toks]; rw [Core.toks_rootFree value c h]
   | .named c _ _, h => by simp only [Core.toks]; rw [Core.toks_rootFree value c h]
-  | .unnamed c _ _, h => by simp only [Core.toks]; rw [Core.toks_rootFree value c h]
+  | .unnamed c _ _ _, h => by simp only [Core.toks]; rw [Core.toks_rootFree value c h]
   | .index c _ _, h => by simp only [Core.toks]; rw [Core.toks_rootFree value c h]
 
 theorem VExpr.toks_rootFree (value : Toks) (v : VExpr) (h : v.rootFree = true) :
@@ -168,8 +168,8 @@ theorem fieldValue_rootFree (v : VExpr) (ops : FieldOps) (h : v.rootFree = true)
   · exact foldl_applyOp_rootFree _ _ h
   · exact h
 
-theorem wildBase_rootFree (v : VExpr) (f : FieldName) (h : v.rootFree = true) :
-    (wildBase v f).rootFree = true := by
+theorem wildBase_rootFree (v : VExpr) (rsp : Sp) (f : FieldName) (h : v.rootFree = true) :
+    (wildBase v rsp f).rootFree = true := by
   cases f <;> simpa [wildBase, Core.rootFree, VExpr.rootFree] using h
 
 theorem var_rootFree (n : Name) : (VExpr.ofCore (.var n)).rootFree = true := rfl
@@ -270,8 +270,8 @@ theorem expandWildFields_rootFree (v : VExpr) (h : v.rootFree = true) : ∀ (ite
       simp only
       split
       · split
-        · exact expandPat_rootFree _ (foldl_applyOp_rootFree _ (VExpr.ofCore _) (wildBase_rootFree v _ h)) p
-        · exact expandPat_rootFree ⟨_, _⟩ (wildBase_rootFree v _ h) p
+        · exact expandPat_rootFree _ (foldl_applyOp_rootFree _ (VExpr.ofCore _) (wildBase_rootFree v _ _ h)) p
+        · exact expandPat_rootFree ⟨_, _⟩ (wildBase_rootFree v _ _ h) p
       · simp [Code.rootFree]
 
 theorem expandEntries_rootFree (v : VExpr) (h : v.rootFree = true) (node : Nat) : ∀ (items : Items),
